@@ -749,6 +749,10 @@ func ruleLateFrames(p *Prog, r *Out) {
 	} else {
 		remember, disc := false, false
 		for _, s := range refuseIf.Body.List {
+			// unconditional when the branch itself is entered for HEADERS only
+			if squash(p.text(s)) == "markClosed(fr.Stream(),true)" && strings.Contains(squash(p.text(refuseIf.Cond)), "fr.Type()==FrameHeaders") {
+				remember = true
+			}
 			if ifs, ok := s.(*ast.IfStmt); ok {
 				if squash(p.text(ifs.Cond)) == "fr.Type()==FrameHeaders" && len(ifs.Body.List) == 1 && squash(p.text(ifs.Body.List[0])) == "markClosed(fr.Stream(),true)" {
 					remember = true
